@@ -5,4 +5,5 @@ CONSTANTS
  Dev = "guardLost"
  FixedOrder = TRUE
 INVARIANT RoundTripI
+INVARIANT FastAgrees
 CHECK_DEADLOCK FALSE
